@@ -12,6 +12,6 @@ while IFS="$(printf '\t')" read -r id commit props subj; do
   done
   echo "$line"
   rm -rf "$D"
-done < /verif/tools/mutrev-list.txt
+done < ${MUTREV_LIST:-/verif/tools/mutrev-list.txt}
 /venv/bin/python -B /verif/harness/extract.py > /dev/null
 rm -f /verif/replays/*.json
